@@ -9,7 +9,7 @@ class PROP(Prop):
     profiles = ["debug"]
     rule = ("RTU server (RTU-over-TCP, injected transport) and RTU client: valid frames; EVERY single-bit flip of each frame; sampled (quick) / all "
             "(thorough, short frames) double-bit flips and bursts of <= 16 bits; all 65536 values of the CRC field of a frame (sampled in quick); "
-            "random noise with embedded frames; random chunkings.  Emitted request and response frames checked with an independent table-driven "
+            "random noise with embedded frames; random chunkings.  Emitted request and response frames (also after write faults, abandoned calls, refused oversize requests, and the SAME request repeated after set_slave chose another device) checked with an independent table-driven "
             "CRC.  Oracle: every delivered (slave, request)/returned response corresponds to a CRC-valid contiguous slice of the injected stream, "
             "in stream order, non-overlapping; a damaged frame is never delivered.  non-trivial = stream containing a corrupted frame or noise")
 
@@ -113,12 +113,18 @@ class PROP(Prop):
             cs.append(Case("SRV rtu d%s - - x=%d" % (mb.rtu_frame(3, b"\x11").hex(), rng.randrange(256)), {"k": "emit_rsp"}))
         # emitted frames after an earlier call left bytes in the write buffer (write error, zero write, abandonment) or was refused by the encoder (oversized request)
         for _ in range(200 if tier == "quick" else 2000):
-            slave = rng.randrange(256)
+            slave = slave0 = rng.randrange(256)
             ops, frames = [], []
+            prev = None
             for i in range(rng.randrange(2, 5)):
-                req = mb.rnd_req(rng, rng.choice(["RC", "RHR", "WSR", "WSC", "MWR", "WMR", "RSI"]))
+                # often: the SAME request again, after set_slave chose another device (the CRC covers the address byte too)
+                if prev is not None and rng.random() < 0.4:
+                    slave = rng.choice([slave ^ 1, rng.randrange(256), slave])
+                    ops.append("slave %d" % slave)
+                req = prev if prev is not None and rng.random() < 0.5 else mb.rnd_req(rng, rng.choice(["RC", "RHR", "WSR", "WSC", "MWR", "WMR", "RSI"]))
                 if mb.spec_req_size(req) > 60:
                     req = ("RHR", 1, 1)
+                prev = req
                 mode = rng.choice(["ok", "ok", "werr", "abandon", "zero", "oversize"]) if i < 3 else "ok"
                 if mode == "oversize":
                     # a request the encoder refuses (PDU > 253 bytes) transmits nothing and must leave nothing behind
@@ -137,7 +143,7 @@ class PROP(Prop):
                     ops.append(cligen.call_op(req, W=("a%d," % k if k else "") + "z"))
                 else:
                     ops.append(cligen.call_op(req, W=("a%d," % k if k else "") + "p", drop="0"))
-            cs.append(Case(cligen.cli_line("rtu", slave, ops), {"k": "emit_hist", "frames": frames}))
+            cs.append(Case(cligen.cli_line("rtu", slave0, ops), {"k": "emit_hist", "frames": frames}))
         return cs
 
     def srv(self, cs, streams, rng, kind, chunk=True):
